@@ -180,6 +180,9 @@ def one_op(p, inner=False):
                                     st.sampled_from(["roundoff", "roundoff", "tiny_e", "tiny_e", "huge_xy", "huger_xy", "tiny_xy", "inch_feed",
                                                      "tiny_merge", "huge_merge", "tiny_z", "leave_far", "tiny_base", "tiny_base", "spelled_merge"]),
                                     st.integers(1, 9), st.integers(0, 8)))]
+        if p.get("again", 2):
+            # the previous move command once more, character for character (a second relative step; a null move in absolute mode)
+            parts += [(p.get("again", 2), st.just(("again",)))]
         if p["rel"] and p.get("zres", 1):
             # relative Z steps that sum to zero only up to float round-off (0.1 + 0.2 - 0.3), from Z0 or from the current height
             parts += [(p.get("zres", 1), st.tuples(st.just("zres"), st.booleans()))]
@@ -450,6 +453,10 @@ class Renderer(object):  # pylint: disable=too-many-instance-attributes
             if not self.pr.abs:
                 self.g("G90")
             self.op(("mv", "grid", 0, i, i, mask, None, 0, None, "G1"))
+        elif k == "again":
+            last = self.prog[-1] if self.prog else None
+            if last is not None and last[0] == "g" and last[1].startswith(("G0 ", "G1 ")) and any(w in last[1] for w in (" X", " Y", " Z")):
+                self.g(last[1], precheck=True)
         elif k == "zres":
             if self.exact:
                 self.rewrites += 1
